@@ -12,7 +12,12 @@
 //!     positions (add above / between / below, remove in front, re-add a removed name, enable / disable, fact edits,
 //!     reset_no_loop_tracking) over no-loop / lock-on-active / activation-group rules whose conditions are true;
 //!   * a call that ends at the max_cycles bound or with an action error while activation groups are closed,
-//!     followed by further calls on the same engine (every ordered pair of the two execute twins).
+//!     followed by further calls on the same engine (every ordered pair of the two execute twins);
+//!   * a lock-on-active / no-loop rule whose action returns an error (it did NOT fire), the cause repaired between the calls
+//!     (`S<f>.<v>` sets the field the action reads), then further calls without re-focusing (`gen_lock_after_error`);
+//!   * rules whose action lists consist of workflow bookkeeping actions only (`W.k`: ScheduleRule / CompleteWorkflow /
+//!     SetWorkflowData), alone, next to rules that fire in the first passes only, mixed with Set actions, with no-loop
+//!     (`gen_workflow_actions`); the random sets draw `W.k` actions as well.
 #[path = "c02.rs"]
 #[allow(dead_code)]
 mod c02;
@@ -93,7 +98,8 @@ fn gen(rng: &mut Rng, n: usize, _tier: &str) -> Vec<String> {
                         flags &= 6;
                     }
                     let na = rng.range(1, 2);
-                    let acts = (0..na).map(|_| gen_act(rng, nf, 2)).collect();
+                    let wonly = rng.chance(1, 6);
+                    let acts = (0..na).map(|_| if wonly || rng.chance(1, 8) { ('W', rng.below(3), 0) } else { gen_act(rng, nf, 2) }).collect();
                     let mut r = rule(i, *rng.pick(&[i32::MIN as i64, -5, 0, 0, 7, 7, i32::MAX as i64]), flags, gen_cond(rng, nf), acts);
                     if rng.chance(1, 6) {
                         r.ag = Some(rng.below(2));
@@ -126,6 +132,12 @@ fn gen(rng: &mut Rng, n: usize, _tier: &str) -> Vec<String> {
     }
     for _ in 0..(n / 10).max(40) {
         out.push(gen_after_bound_or_error(rng));
+    }
+    for _ in 0..(n / 12).max(40) {
+        out.push(gen_lock_after_error(rng));
+    }
+    for _ in 0..(n / 12).max(40) {
+        out.push(gen_workflow_actions(rng));
     }
     out
 }
@@ -432,6 +444,9 @@ fn gen_after_bound_or_error(rng: &mut Rng) -> String {
         if rng.chance(1, 3) {
             r.cond = ('G', 0, rng.below(maxc as u64) as i64 - 1); // errs in a later pass
         }
+        if rng.chance(1, 3) {
+            r.flags |= *rng.pick(&[4u8, 4, 2, 6]); // the rule that did not fire must not be remembered as fired
+        }
         if rng.chance(1, 4) {
             r.actg = Some(rng.below(nag));
         }
@@ -454,6 +469,138 @@ fn gen_after_bound_or_error(rng: &mut Rng) -> String {
     }
     let facts = vec![Some(0), Some(0), if failing { None } else { Some(0) }, Some(0)];
     show_case(&Case { maxc, facts, rules, ops })
+}
+
+// ---------------------------------------------------------------------------------------------
+// an action error inside a lock-on-active / no-loop rule, the cause repaired, further calls without re-focusing
+
+/// fields: f0 counter, f1 written by the action in front of the failing one, f2 the field the failing action reads (absent
+/// at first, set by `S2.<v>` between the calls), f3 free. A rule whose action returned `Err` has NOT fired: neither the
+/// lock-on-active bookkeeping of its agenda group nor the no-loop set may remember it, so once the cause is repaired the
+/// next call fires it (and only then stops before the bound).
+fn gen_lock_after_error(rng: &mut Rng) -> String {
+    let maxc = *rng.pick(&[2usize, 3, 3, 4, 5, 8, 16]);
+    let grouped = rng.chance(1, 4); // the failing rules live in agenda group 1, focused before the first call
+    let nfail = if rng.chance(1, 4) { 2 } else { 1 };
+    let mut rules = Vec::new();
+    for i in 0..nfail {
+        let flags = *rng.pick(&[5u8, 5, 5, 5, 7, 3, 1]);
+        let acts = match rng.below(5) {
+            0 | 1 => vec![('A', 2, 1)],
+            2 => vec![('S', 1, 1), ('A', 2, 1)],      // an earlier action of the same rule went through
+            3 => vec![('A', 2, 1), ('A', 3, 1)],
+            _ => vec![('A', 2, 0)],                    // reads f2, leaves it as it is
+        };
+        let cond = *rng.pick(&[('L', 0, 50), ('L', 0, 50), ('E', 3, 0), ('G', 0, -1)]);
+        let mut r = rule(i, *rng.pick(&[7i64, 0, 0, -5]), flags, cond, acts);
+        if grouped {
+            r.ag = Some(1);
+        } else if rng.chance(1, 5) {
+            r.ag = Some(0);
+        }
+        if rng.chance(1, 8) {
+            r.actg = Some(0);
+        }
+        rules.push(r);
+    }
+    // ordinary rules around it: a bounded counter, a one-shot rule, another lock-on-active rule that does fire
+    for j in 0..rng.below(3) {
+        let name = nfail + j;
+        let sal = *rng.pick(&[9i64, 7, 0, -5, -9]);
+        let mut r = match rng.below(3) {
+            0 => rule(name, sal, 1, ('L', 0, rng.range(1, 4) as i64), vec![('A', 0, 1)]),
+            1 => rule(name, sal, 1, ('E', 3, 0), vec![('S', 3, 1)]),
+            _ => rule(name, sal, 5, ('L', 0, 50), vec![('A', 1, 1)]),
+        };
+        if grouped && rng.chance(2, 3) {
+            r.ag = Some(1);
+        }
+        rules.push(r);
+    }
+    let mut ops: Vec<String> = Vec::new();
+    if grouped {
+        ops.push(if rng.chance(3, 4) { "F1".to_string() } else { "V1".to_string() });
+    }
+    ops.push(exec_op(rng));
+    // the repair (mostly), or something else, or nothing
+    match rng.below(10) {
+        0..=6 => ops.push(format!("S2.{}", rng.below(3))),
+        7 => {
+            ops.push(format!("S2.{}", rng.below(3)));
+            ops.push("N".to_string());
+        }
+        8 => ops.push(format!("D{}", rng.below(nfail))),
+        _ => {}
+    }
+    ops.push(exec_op(rng));
+    if rng.chance(1, 3) {
+        if rng.chance(1, 2) {
+            ops.push(format!("S{}.0", *rng.pick(&[0u64, 3])));
+        }
+        ops.push(exec_op(rng));
+    }
+    let facts = vec![Some(0), Some(0), None, Some(0)];
+    show_case(&Case { maxc, facts, rules, ops })
+}
+
+// ---------------------------------------------------------------------------------------------
+// rules whose actions are workflow bookkeeping only
+
+fn wacts(rng: &mut Rng) -> Vec<(char, u64, i64)> {
+    let k = *rng.pick(&[1u64, 1, 2, 3]);
+    (0..k).map(|_| ('W', rng.below(3), 0)).collect()
+}
+
+/// A firing is a firing whatever the rule's actions are: a pass in which only rules with ScheduleRule / CompleteWorkflow /
+/// SetWorkflowData actions fired is not a silent pass. Always-true (or slowly quiescing) rules without no-loop, every
+/// max_cycles class, both execute twins; companions that fire in the first pass(es) only, so that the workflow-only pass is
+/// the first, a middle or the last one before the bound.
+fn gen_workflow_actions(rng: &mut Rng) -> String {
+    let maxc = match rng.below(8) {
+        0 => 2,
+        1 => 3,
+        2 => 64,
+        3 => 1,
+        _ => rng.range(2, 24) as usize,
+    };
+    let mut rules = Vec::new();
+    let nw = *rng.pick(&[1u64, 1, 1, 2, 3]);
+    for i in 0..nw {
+        let cond = *rng.pick(&[('G', 0, -1), ('L', 0, 50), ('E', 1, 0), ('L', 2, 50)]);
+        let mut acts = wacts(rng);
+        let mut flags = 1u8;
+        match rng.below(10) {
+            0 => flags |= 2,                 // fires once: the pass after it is silent
+            1 => flags |= 4,
+            2 => acts.push(('S', 3, 1)),     // mixed with a Set: not workflow-only
+            3 => acts.insert(0, ('A', 3, 1)),
+            _ => {}
+        }
+        let mut r = rule(i, *rng.pick(&[7i64, 0, 0, -5, i32::MAX as i64]), flags, cond, acts);
+        if rng.chance(1, 10) {
+            r.actg = Some(0);
+        }
+        rules.push(r);
+    }
+    for j in 0..rng.below(3) {
+        let name = nw + j;
+        let sal = *rng.pick(&[9i64, 7, 0, -5, -9]);
+        rules.push(match rng.below(4) {
+            0 => rule(name, sal, 1, ('E', 3, 0), vec![('S', 3, 1)]),                                  // first pass only
+            1 => rule(name, sal, 1, ('L', 0, rng.range(1, 5) as i64), vec![('A', 0, 1)]),          // the first few passes
+            2 => rule(name, sal, 1, ('E', 3, 99), vec![('S', 3, 0)]),                                 // never
+            _ => rule(name, sal, 1, ('L', 0, rng.range(1, 3) as i64), vec![('A', 0, 1), ('W', rng.below(3), 0)]),
+        });
+    }
+    let mut ops = Vec::new();
+    if rng.chance(1, 8) {
+        ops.push(format!("S{}.{}", rng.below(4), rng.below(2)));
+    }
+    ops.push(if rng.chance(3, 4) { format!("X{}", rng.pick(&[10u64, 20, 30])) } else { "C".to_string() });
+    if rng.chance(1, 4) {
+        ops.push(exec_op(rng));
+    }
+    show_case(&Case { maxc, facts: vec![Some(0), Some(0), Some(0), Some(0)], rules, ops })
 }
 
 /// c02's candidates, preceded (for big knowledge bases) by the removal of whole blocks of rules from the front, the
